@@ -260,6 +260,52 @@ def job_antenna(num_pols, asc, N, ycomplex=False):
     return recs
 
 
+def job_fractional_request(num_pols, count):
+    """a request for a non-integer number of samples is either refused or leaves the antenna's clock equal to its
+    streams' (NumPy refuses a float count in linspace; nothing may have moved when it does)"""
+    recs = []
+    P, pre = params()
+    tag = f"C10:fractional:{(num_pols, count)}"
+    with volt_patches(proxy=proxy()):
+        ant = A.Antenna(sample_rate=P['sr'], fch1=P['fch1'], ascending=True, num_pols=num_pols, t_start=P['t0'], seed=3)
+        for st in ant.streams:
+            st.add_noise(P['v_mean'], P['v_std'])
+        ant.get_samples(2)
+        refused = None
+        try:
+            ant.get_samples(count)
+        except TypeError as e:
+            refused = e
+        clocks = [ant.t_start] + [st.t_start for st in ant.streams]
+    dis = [lift(c) != lift(clocks[0]) for c in clocks[1:]]
+    if refused is not None:
+        dis.append(lift(clocks[0]) != P['t0'].t + 2 / P['sr'].t)
+    r, m = core.check(pre + [z3.Or(*dis)], timeout_ms=30000)
+    recs.append(q(tag, r, refused=refused is not None))
+    if r == 'sat':
+        recs.append(cex('C10:fractional', f"after a request for {count} samples ({'refused' if refused is not None else 'accepted'}) the antenna's clock differs from its streams' clocks",
+                        dict(fn='fractional', num_pols=num_pols, count=count), name=tag))
+    r, _ = core.check(pre + [lift(clocks[0]) != P['t0'].t], timeout_ms=30000)
+    recs.append(q(tag + ':twin', r, expect='sat'))
+    return recs
+
+
+def replay_fractional(p):
+    from setigen.voltage import antenna as an
+    ant = an.Antenna(sample_rate=1000.0, fch1=100.0, ascending=True, num_pols=p['num_pols'], t_start=1.5, seed=4)
+    for st in ant.streams:
+        st.add_noise(0, 1)
+    ant.get_samples(2)
+    try:
+        ant.get_samples(p['count'])
+        how = 'accepted'
+    except TypeError:
+        how = 'refused'
+    clocks = [ant.t_start] + [st.t_start for st in ant.streams]
+    bad = any(abs(c - clocks[0]) > 1e-12 for c in clocks[1:]) or (how == 'refused' and abs(clocks[0] - (1.5 + 2 / 1000.0)) > 1e-12)
+    return bad, f"request for {p['count']} samples {how}: antenna clock {clocks[0]!r}, stream clocks {clocks[1:]!r}"
+
+
 # ------------------------------------------------------------------ concrete oracle
 def replay_stream(p):
     from setigen.voltage import data_stream as ds
@@ -359,7 +405,7 @@ def replay_antenna(p):
     return bool(msgs), '; '.join(msgs) or 'antenna ok'
 
 
-REPLAYS = {'stream': replay_stream, 'antenna': replay_antenna}
+REPLAYS = {'stream': replay_stream, 'antenna': replay_antenna, 'fractional': replay_fractional}
 
 
 def main():
@@ -384,6 +430,9 @@ def main():
         for num_pols in (1, 2):
             jobs.append(('job_antenna', (num_pols, asc, 3 if not ck.thorough else 4)))
         jobs.append(('job_antenna', (2, asc, 2, True)))
+    for num_pols in (1, 2):
+        for count in (2.5, 3.0, 0.5):
+            jobs.append(('job_fractional_request', (num_pols, count)))
     ck.run_jobs('props.C10', jobs, timeout_s=900)
     ck.finish()
 
